@@ -284,6 +284,10 @@ def run_stage(prop, tier, seed, stage, nshards_default):
             sub, idx = case
             solo_dir = os.path.join(WORK, "logs", prop, name + f"-solo-{r['shard']}-{restarts}")
             solo_timeout = timeout_s if not r["timed_out"] else timeout_s * 4
+            suspected_hang = r["timed_out"] or r["rc"] == 124
+            if suspected_hang:
+                # a suspected hang is confirmed alone with a 10x larger per-case limit
+                env_extra = dict(env_extra, JBV_WATCHDOG_S=str(10 * int(env_extra.get("JBV_WATCHDOG_S", "60"))))
             solo = run_shards(variant, prop, tier, seed, 1, solo_dir, stage.get("args", []) + ["--replay", sub, str(idx)], solo_timeout, env_extra, shard_ids=[0], wrapper=stage.get("wrapper"))[0]
             solo_tail = tail(os.path.join(solo_dir, "shard-0.stderr"), 60)
             if solo["json"] is not None:
@@ -316,7 +320,7 @@ def run_stage(prop, tier, seed, stage, nshards_default):
 
 
 def classify_death(solo, stderr_tail, variant):
-    if solo["timed_out"]:
+    if solo["timed_out"] or solo["rc"] == 124 or "WATCHDOG: case" in stderr_tail:
         return "hang"
     if "AddressSanitizer" in stderr_tail:
         m = re.search(r"AddressSanitizer: (\S+)", stderr_tail)
